@@ -113,15 +113,25 @@ Definition rs_white (c : N) := if is_ascii c then (c =? 32) || in_range c 9 13 e
 
 (* ================================================================== Python: edb/edgeql/quote.py *)
 
-(* escape_string: the chain  result = result.replace(A, B)  in source order *)
+(* '%02x' etc.: k lower-case hex digits, most significant first *)
+Definition hexchar (d : N) : N := if d <? 10 then 48 + d else 87 + d.
+Fixpoint hex_fixed (k : nat) (n : N) : ustr :=
+  match k with
+  | O => []
+  | S k' => hex_fixed k' (n / 16) ++ [hexchar (n mod 16)]
+  end.
+
+(* escape_string: the chain  result = result.replace(A, B)  in source order, then
+   for c in _BIDI_CONTROLS: if c in result: result = result.replace(c, '\\u{:04x}'.format(ord(c)))
+   (the `if` guard does not change the value) *)
 Definition ql_escape_string (s : ustr) : ustr :=
-  fold_left (fun acc ab => replace_char (fst ab) (snd ab) acc) g_ql_escape_table s.
+  fold_left (fun acc c => replace_char c (92 :: 117 :: hex_fixed 4 c) acc) g_ql_escape_bidi
+    (fold_left (fun acc ab => replace_char (fst ab) (snd ab) acc) g_ql_escape_table s).
 
 Definition ql_quote_literal (s : ustr) : ustr :=
   g_ql_lit_quote :: ql_escape_string s ++ [g_ql_lit_quote].
 
 (* '{:x}'.format(n) reversed = hex digits, least significant first *)
-Definition hexchar (d : N) : N := if d <? 10 then 48 + d else 87 + d.
 Fixpoint hexrev (fuel : nat) (n : N) : ustr :=
   match fuel with
   | O => []
@@ -129,9 +139,9 @@ Fixpoint hexrev (fuel : nat) (n : N) : ustr :=
   end.
 Definition dq_tag (qq : N) : ustr := g_dq_open ++ hexrev (S (N.size_nat qq)) qq ++ g_dq_close.
 
-(* the while loop of dollar_quote_literal; None = out of fuel *)
+(* the while loop of dollar_quote_literal,  while quote in text + quote[:-1];  None = out of fuel *)
 Fixpoint dq_loop (fuel : nat) (text quote : ustr) (qq : N) : option ustr :=
-  if contains quote text then
+  if contains quote (text ++ removelast quote) then
     match fuel with
     | O => None
     | S f =>
@@ -180,13 +190,6 @@ Definition ql_quote_ident (force allow_reserved allow_num : bool) (s : ustr) : u
 
 Definition ql_param_to_str (s : ustr) : ustr := 36 :: ql_quote_ident false true true s.
 
-(* '%02x' etc.: k lower-case hex digits, most significant first *)
-Fixpoint hex_fixed (k : nat) (n : N) : ustr :=
-  match k with
-  | O => []
-  | S k' => hex_fixed k' (n / 16) ++ [hexchar (n mod 16)]
-  end.
-
 (* CPython unicode_repr *)
 Definition repr1 (q c : N) : ustr :=
   if (c =? q) || (c =? 92) then [92; c]
@@ -203,19 +206,44 @@ Definition py_repr (s : ustr) : ustr :=
   let q := if mem 39 s && negb (mem 34 s) then 34 else 39 in
   q :: flat_map (repr1 q) s ++ [q].
 
+(* _REPR_ESCAPE_RE.sub(lambda m: '\\u00' + m.group(1) if m.group(1) else m.group(0), repr(value))
+   with _REPR_ESCAPE_RE = \\(?:x([89a-f][0-9a-f])|.)  (DOTALL): left to right, a backslash
+   consumes the next character; \xHH with H >= 8 becomes \u00HH *)
+Definition is_hex_hi (c : N) := (c =? 56) || (c =? 57) || in_range c 97 102.
+Definition is_hex_lc (c : N) := is_digit c || in_range c 97 102.
+Fixpoint repr_fix (s : ustr) : ustr :=
+  match s with
+  | [] => []
+  | c :: t =>
+    if c =? 92 then
+      match t with
+      | [] => [c]
+      | d :: t' =>
+        if d =? 120 then
+          match t' with
+          | a :: b :: t'' =>
+            if is_hex_hi a && is_hex_lc b then 92 :: 117 :: 48 :: 48 :: a :: b :: repr_fix t''
+            else 92 :: d :: repr_fix t'
+          | _ => 92 :: d :: repr_fix t'
+          end
+        else 92 :: d :: repr_fix t'
+      end
+    else c :: repr_fix t
+  end.
+
 (* visit_Constant, kind STRING;  None only when dollar_quote_literal runs out of fuel *)
 Fixpoint vc_delims (ds : list ustr) (s : ustr) : option ustr :=
   match ds with
   | [] => ql_dollar_quote_literal s
   | d :: ds' =>
     if negb (contains d s) then
-      if mem 92 s && negb (str_eqb d g_ql_noraw_delim) then Some (114 :: d ++ s ++ d)
+      if mem 92 s then Some (114 :: d ++ s ++ d)
       else Some (d ++ s ++ d)
     else vc_delims ds' s
   end.
 Definition ql_visit_constant (s : ustr) : option ustr :=
   if negb (existsb (fun c => in_ranges c g_ql_nonprintable) s) then vc_delims g_ql_delims s
-  else Some (py_repr s).
+  else Some (repr_fix (py_repr s)).
 
 (* visit_BytesConstant: _BYTES_ESCAPE_RE.sub(_bytes_escape, value), then b'...' *)
 Definition ql_bytes_esc1 (b : N) : ustr :=
@@ -591,6 +619,12 @@ Definition lex_dollar (s : ustr) : lexres :=
     else LexErr
   end.
 
+(* first characters of the token classes outside this model (operators, punctuation, the
+   \(name) substitution) and the characters Tokenizer::new / skip_whitespace step over *)
+Definition ql_other_token_start : ustr :=
+  [58; 45; 62; 60; 43; 47; 46; 63; 33; 61; 44; 40; 41; 91; 93; 123; 125; 59; 42; 37; 94; 38; 124; 64; 92;
+   32; 9; 10; 13; 35; 65279].
+
 (* Tokenizer::peek_token_inner on a fresh tokenizer (dot = false, no open interpolation), with
    the value computed as validation.rs::parse_value does.  `rest` is the text right after the
    token (before skip_whitespace). *)
@@ -617,7 +651,8 @@ Definition ql_lex1 (s : ustr) : lexres :=
       end
     else if is_digit c then lex_number c s'
     else if c =? 36 then lex_dollar s'
-    else LexUnmodelled
+    else if mem c ql_other_token_start then LexUnmodelled
+    else LexErr                       (* "unexpected character" *)
   end.
 
 End WithUni.
